@@ -107,6 +107,10 @@ def sources(tier, seed, ctx):
     for n in ([1, 2, 3, 4, 5, 7, 9, 10, 16, 18, 31, 33, 34, 47, 64, 70] if tier == 'quick' else list(range(1, 71))):
         for k in ('XAIG', 'AIG'):     # both bases for every operand count (the trailing 1-2 bits take their own path)
             srcs.append({'fn': 'add_sum_pow2_m1', 'n': n, 'basis': k, 'spelled': rng.choice(SPELL[k]), 'big': bool(n % 2), 'host': None})
+    # a third of the little-endian calls do not pass big_endian at all (the documented default is little-endian)
+    for j, s_ in enumerate(srcs):
+        if s_.get('big') is False and j % 3 == 0:
+            s_['big'] = None
     ctx['gen_note'] = f'{len(srcs)} generator calls'
     return srcs
 
@@ -125,7 +129,7 @@ def record(src):
     try:
         if fn == 'generate_sum_n_bits':
             n, big = src['n'], src['big']
-            c = ar.generate_sum_n_bits(n, basis=_basis_arg(src['basis'], src['spelled']), big_endian=big)
+            c = ar.generate_sum_n_bits(n, basis=_basis_arg(src['basis'], src['spelled']), **A.bkw(big))
             pre = {'g': {l: {'t': 'INPUT', 'o': []} for l in c.inputs}, 'ord': list(c.inputs), 'i': list(c.inputs), 'o': [], 'u': {}, 'b': {}}
             res = list(c.outputs)
             out = A.le(res, big)
@@ -138,7 +142,7 @@ def record(src):
             n, big = src['n'], src['big']
             c, ops = A.make_host(src, n)
             pre = project(c)
-            res = ar.add_sum_n_bits(c, list(ops), basis=_basis_arg(src['basis'], src['spelled']), big_endian=big)
+            res = ar.add_sum_n_bits(c, list(ops), basis=_basis_arg(src['basis'], src['spelled']), **A.bkw(big))
             out = A.le(res, big)
             m = len(res)
             checks = [{'op': 'wsum', 'ins': [[0, l] for l in ops], 'outs': [[j, l] for j, l in enumerate(out)]}]
@@ -150,7 +154,7 @@ def record(src):
             c, ops = A.make_host(src, n)
             pre = project(c)
             if fn == 'add_sum_n_bits_easy':
-                res = ar.add_sum_n_bits_easy(c, list(ops), big_endian=big)
+                res = ar.add_sum_n_bits_easy(c, list(ops), **A.bkw(big))
             else:
                 res = getattr(ar, fn)(c, list(ops))
             out = A.le(res, big)
@@ -194,11 +198,11 @@ def record(src):
             pre = project(c)
             a, b = ops[:la], ops[la:]
             if fn == 'add_sum_two_numbers':
-                res = ar.add_sum_two_numbers(c, list(a), list(b), big_endian=big)
+                res = ar.add_sum_two_numbers(c, list(a), list(b), **A.bkw(big))
                 shift = 0
             else:
                 shift = src['shift']
-                res = ar.add_sum_two_numbers_with_shift(c, shift, list(a), list(b), big_endian=big)
+                res = ar.add_sum_two_numbers_with_shift(c, shift, list(a), list(b), **A.bkw(big))
             checks = [{'op': 'add', 'a': A.le(a, big), 'b': A.le(b, big), 'shift': shift, 'out': A.le(res, big)}]
             return A.finish(case, c, pre, rng, res, checks, 'same', [])
         if fn == 'sum2-alias':
@@ -208,12 +212,12 @@ def record(src):
             a, b = list(ops[:la]), list(ops[la:])
             a0, b0 = list(a), list(b)
             if shift is None:
-                r1 = ar.add_sum_two_numbers(c, a, a, big_endian=big)       # the SAME list object twice
-                r2 = ar.add_sum_two_numbers(c, a, b, big_endian=big)       # the list is used again
+                r1 = ar.add_sum_two_numbers(c, a, a, **A.bkw(big))       # the SAME list object twice
+                r2 = ar.add_sum_two_numbers(c, a, b, **A.bkw(big))       # the list is used again
                 sh = 0
             else:
-                r1 = ar.add_sum_two_numbers_with_shift(c, shift, a, a, big_endian=big)
-                r2 = ar.add_sum_two_numbers_with_shift(c, shift, a, b, big_endian=big)
+                r1 = ar.add_sum_two_numbers_with_shift(c, shift, a, a, **A.bkw(big))
+                r2 = ar.add_sum_two_numbers_with_shift(c, shift, a, b, **A.bkw(big))
                 sh = shift
             checks = [{'op': 'add', 'a': A.le(a0, big), 'b': A.le(a0, big), 'shift': sh, 'out': A.le(r1, big)},
                       {'op': 'add', 'a': A.le(a0, big), 'b': A.le(b0, big), 'shift': sh, 'out': A.le(r2, big)}]
@@ -222,7 +226,7 @@ def record(src):
             n, big = src['n'], src['big']
             c, ops = A.make_host(src, n)
             pre = project(c)
-            res = ar.add_sum_pow2_m1(c, list(ops), big_endian=big, basis=_basis_arg(src['basis'], src['spelled']))
+            res = ar.add_sum_pow2_m1(c, list(ops), **A.bkw(big), basis=_basis_arg(src['basis'], src['spelled']))
             outs = [[lvl, lab] for lvl, labs in enumerate(res) for lab in labs]
             checks = [{'op': 'wsum_multi', 'ins': [[0, l] for l in ops], 'outs': outs}]
             return A.finish(case, c, pre, rng, [l for _, l in outs], checks, 'same', [], src['basis'])
